@@ -4,6 +4,8 @@ package oracle
 
 import (
 	"fmt"
+	"reflect"
+	"unsafe"
 
 	"github.com/yuin/goldmark/ast"
 	east "github.com/yuin/goldmark/extension/ast"
@@ -326,7 +328,17 @@ func (c *astChecker) inlineOrder(block ast.Node, lines *text.Segments) {
 			if ch.Type() != ast.TypeInline {
 				continue
 			}
-			if t, ok := ch.(*ast.Text); ok {
+			t, ok := ch.(*ast.Text)
+			if a, isAuto := ch.(*ast.AutoLink); isAuto {
+				// the position an autolink records is the Text node of its label (a private field, visible
+				// through Label / URL): it is part of the block's inline content like any other segment
+				t, ok = autoLinkText(a), true
+				if t == nil {
+					c.fail("autolink-label", ch, "AutoLink without a label node")
+					return
+				}
+			}
+			if ok {
 				s := t.Segment
 				if s.Start < 0 || s.Start > s.Stop || s.Stop > len(c.src) {
 					c.fail("segment-range", ch, "Text segment {%d,%d} outside the source", s.Start, s.Stop)
@@ -360,4 +372,13 @@ func (c *astChecker) inlineOrder(block ast.Node, lines *text.Segments) {
 		}
 	}
 	walk(block)
+}
+
+// autoLinkText reads the unexported label node of an AutoLink.
+func autoLinkText(a *ast.AutoLink) *ast.Text {
+	f := reflect.ValueOf(a).Elem().FieldByName("value")
+	if !f.IsValid() || f.Kind() != reflect.Ptr {
+		return nil
+	}
+	return *(**ast.Text)(unsafe.Pointer(f.UnsafeAddr()))
 }
